@@ -85,5 +85,6 @@ PROPS = {
     'C17': {
         'harnesses': ['c17::h_pattern', 'c17::h_pattern_tokens', 'c17::h_names', 'c17::h_revision_digits', 'c17::h_summary_text', 'c17::h_summary_stream', 'c17::h_bytes_parsers', 'c17::h_distinfo_line', 'c17::h_plist_line', 'c17::h_scanindex', 'c17::h_metadata', 'c17::h_pkgdb', 'c17::h_summary_calls'],
         'covers': {'c17::h_pkgdb': ['package-listed']},
+        'max_paths': {'quick': 400000, 'thorough': 3000000},
     },
 }
